@@ -761,6 +761,13 @@ func main() {
 	progressFile, _ = os.OpenFile(filepath.Join(f.OutDir, "progress.json"), os.O_CREATE|os.O_WRONLY|os.O_TRUNC, 0644)
 	if f.In != "" {
 		for _, in := range hx.ReadInputs(f.In) {
+			if in.Kind == "level" {
+				var ld levelDesc
+				if err := json.Unmarshal(in.Desc, &ld); err == nil {
+					runLevel(o, ld, "replay")
+				}
+				continue
+			}
 			var d desc
 			if err := json.Unmarshal(in.Desc, &d); err != nil {
 				continue
@@ -768,6 +775,10 @@ func main() {
 			runCase(o, d, "replay")
 		}
 		return
+	}
+	// the requested level: the `consistency` parameter through the real parser
+	for _, ld := range levelInputs(hx.NewRand(f.Seed^0xc03), 150) {
+		runLevel(o, ld, "gen")
 	}
 	// designed: no owners at all; every handoff-refusal flavour; both rejection wordings
 	for _, lv := range levelNames {
